@@ -558,7 +558,7 @@ func ruleClientNumbers(c *Ctx, rule string) {
 			}
 			nW++
 			ac, _ := callOf(st.Val)
-			if fn != create || ac == nil || ac.Call.StaticCallee() != assign {
+			if !w.partOf(fn, create) || ac == nil || ac.Call.StaticCallee() != assign {
 				bad = "binding.number is written at " + w.instrPos(in) + " from " + w.desc(st.Val)
 			}
 		})
